@@ -95,6 +95,7 @@ func checkC39(t TB, c C39Case) bool {
 		failf(t, P, K, c, "%v", merr)
 	}
 	text := string(c.Content)
+	colourVariant(t, P, K, c, EncSpec{Fam: fmt.Sprintf("code%d", c.Sym), Content: c.Content, F1: c.Checksum, F2: c.FullASCII}, [][]bool{m})
 	if c.Sym == 39 {
 		raw, derr := ref.DecodeCode39Raw(m)
 		if derr != nil {
